@@ -79,19 +79,13 @@ class NoLossOracle(HOracle):
                 return
             self.marks_checked += 1
             self.res.counters.inc("marks_checked")
-            last = r.reports[-1] if r.reports else None
+            last = ev.get("last_report_before_mark")
+            if ev.get("expired"):
+                # legitimate: Z in a dying pass (the ledger checked pass-open time > birth + lifetime)
+                self.res.counters.inc("z_turned_d_by_lifetime")
+                return
             if last in ("K", "D"):
                 return
-            if last == "Z":
-                # legitimate only in a dying pass: the pass was opened when recent > birth + lifetime
-                po = m.pass_open.get(r.chan, [])
-                opened = po[-1][0] if po else None
-                if opened is not None and m.birth is not None and opened > m.birth + self.h.lifetime:
-                    self.res.counters.inc("z_turned_d_by_lifetime")
-                    m.lifetime_hit = True
-                    r.reports[-1] = "D"
-                    r.bounce_text = b"(expired)"
-                    return
             self.violate("C03/mark-after/%s" % (last or "no-report"),
                          "recipient %r of message %d marked done although its latest report is %r" % (r.addr, m.num, last))
 
@@ -367,3 +361,345 @@ class QueueStateOracle(HOracle):
                 self.violate("C02/wrong-split-directory", "message %s filed under the wrong subdirectory: %r" % (num, sorted(dirs)))
             self.check_num(int(num), sim, {"c": "scan", "prog": "scan"}, "scan")
         self.res.counters.inc("full_scans")
+
+
+# ============================================================================ C14
+def text_conserved(report, rest):
+    """every non-newline byte of the report text appears in order; each newline of the report maps to
+    exactly one byte (a newline or a substitute); trailing newlines may be absent.  -> bool"""
+    i = j = 0
+    n, m = len(report), len(rest)
+    while i < n:
+        if report[i] == 10:
+            if j < m:
+                j += 1
+                i += 1
+                continue
+            # paragraph ended: the remaining report bytes must all be newlines
+            return all(c == 10 for c in report[i:])
+        if j >= m or rest[j] != report[i]:
+            return False
+        i += 1
+        j += 1
+    return j >= m or all(c == 10 for c in rest[j:])
+
+
+class BounceOracle(HOracle):
+    property_id = "C14"
+
+    def __init__(self, res, hist):
+        super().__init__(res, hist)
+        self.checked = set()
+        self.fail_seq = {}
+
+    def vstrip(self, addr):
+        """remove the virtual-domain prefix the scenario configured (exact domain entries only)"""
+        v = getattr(self.h, "vdoms", {})
+        if b"@" in addr:
+            local, dom = addr.rsplit(b"@", 1)
+            p = v.get(dom.lower())
+            if p and addr.startswith(p + b"-"):
+                return addr[len(p) + 1:]
+        return addr
+
+    def expected_recipient(self, m):
+        if m.sender == b"":
+            return self.h.doublebounceto
+        s = m.sender
+        if s.endswith(b"-@[]"):
+            s = s[:-4]
+        return s
+
+    def direct_recs(self, m):
+        out = []
+        for rec in self.ledger.bounce_recs:
+            n = rec.get("notice")
+            if not n or not rec.get("complete"):
+                continue
+            orig = n.get("original") or b""
+            parts = orig.split(b"\n", 2)
+            if len(parts) == 3 and parts[2] == m.body and parts[0].startswith(b"Return-Path: <"):
+                out.append(rec)
+        return out
+
+    def on_gate(self, ev, sim):
+        if ev.get("c") != "unlink" or ev.get("prog") != "qmail-send":
+            return
+        d, num = qparts(ev)
+        if num is None or d not in ("bounce", "info"):
+            return
+        if os.path.exists(sim.qpath("todo", str(num))):
+            return
+        m = self.ledger.msg(num)
+        if m is None or m.records is None:
+            return
+        self.ledger.scan_recs(sim)
+        failed = [r for r in m.all_rcpts() if r.final() and r.reports[-1] == "D"]
+        recs = self.direct_recs(m)
+        if d == "bounce":
+            # the bounce record may only go once the notice is queued (or is being discarded)
+            if failed and m.sender != b"#@[]" and not recs and os.path.exists(sim.qpath("bounce", str(num))) \
+                    and os.path.getsize(sim.qpath("bounce", str(num))) > 0:
+                self.violate("C14/bounce-record-removed-before-notice-queued", "bounce/%d unlinked but no notice for message %d was queued" % (num, num))
+            return
+        if m.key() in self.checked:
+            return
+        self.checked.add(m.key())
+        self.res.counters.inc("messages_checked")
+        if not failed:
+            if recs:
+                self.violate("C14/notice-without-failure", "message %d had no permanent failure but a notice was queued" % num)
+            return
+        self.res.counters.inc("messages_with_failures")
+        if m.sender == b"#@[]":
+            self.res.counters.inc("double_bounce_failures_discarded")
+            if recs:
+                self.violate("C14/failing-double-bounce-generated-mail", "a message with sender #@[] failed and produced another message")
+            return
+        if len(recs) != 1:
+            self.violate("C14/notice-count/%d" % len(recs), "message %d with %d failed recipients produced %d notices" % (num, len(failed), len(recs)))
+            if not recs:
+                return
+        rec = recs[0]
+        n = rec["notice"]
+        kind = "double" if m.sender == b"" else "single"
+        self.res.counters.inc("notices_checked_" + kind)
+        want_sender = b"#@[]" if m.sender == b"" else b""
+        if rec["sender"] != want_sender:
+            self.violate("C14/envelope-sender/%s" % kind, "notice sent with envelope sender %r, expected %r" % (rec["sender"], want_sender))
+        want_rcpt = self.expected_recipient(m)
+        if rec["recips"] != [want_rcpt]:
+            self.violate("C14/envelope-recipient/%s" % kind, "notice addressed to %r, expected [%r] (original sender %r)" % (rec["recips"], want_rcpt, m.sender))
+        # one paragraph per failed recipient, in the order the failures were reported
+        failed_sorted = sorted(failed, key=lambda r: self.fail_seq.get(id(r), 0))
+        paras = n["paras"]
+        if len(paras) != len(failed):
+            self.violate("C14/paragraph-count", "%d failed recipients but %d paragraphs: %r" % (
+                len(failed), len(paras), [core.hx(p.split(b"\n", 1)[0][:50]) for p in paras]))
+            return
+        for p, r in zip(paras, failed_sorted):
+            head = bouncemodel.para_recipient(p)
+            want = self.vstrip(r.addr)
+            ok_head = head is not None and len(head) == len(want) and all(
+                (a == b_) or (b_ == 10 and a != 10) for a, b_ in zip(head, want))
+            if not ok_head:
+                self.violate("C14/paragraph-head", "paragraph starts %r, expected <%s>:" % (core.hx(p.split(b"\n", 1)[0][:80]), core.hx(want)))
+                continue
+            rest = p.split(b"\n", 1)[1] if b"\n" in p else b""
+            text = r.bounce_text or b""
+            if text == b"(expired)":
+                if b"too long" not in rest:
+                    self.violate("C14/expiry-text-missing", "expired recipient %r bounced without the explanatory text" % r.addr)
+                continue
+            if len(text) > 9000:
+                self.res.counters.inc("oversized_reports")
+                continue
+            if not text_conserved(text, rest):
+                self.violate("C14/failure-text-not-conserved", "recipient %r: report %r became %r" % (r.addr, core.hx(text[:120]), core.hx(rest[:120])))
+        hdr_to = bouncemodel.header_field(n["header"], b"To")
+        if hdr_to is None:
+            self.violate("C14/no-to-header", "notice has no To: field")
+        self.res.sample({"notice_for": core.hx(m.sender), "to": [core.hx(x) for x in rec["recips"]],
+                         "paragraph_heads": [core.hx(p.split(b"\n", 1)[0][:60]) for p in paras]}, cap=3)
+
+    def on_event(self, ev, sim):
+        if ev["kind"] == "report" and ev.get("eff") in ("D", "Z") and ev.get("rcpt") is not None:
+            self.fail_seq[id(ev["rcpt"])] = ev["seq"]
+
+
+# ============================================================================ C15 / C16
+def isqrt(x):
+    return math.isqrt(x) if x > 0 else 0
+
+
+def f_retry(birth, t, chan):
+    n = isqrt(t - birth) if t > birth else 0
+    n += 10 if chan == "l" else 20
+    return birth + n * n
+
+
+class RetryOracle(HOracle):
+    """C15 on histories, judged on delivery commands: a recipient that was deferred is not attempted
+    again before the retry time fixed when the pass of its previous attempt was opened
+    (birth + (isqrt(t_open - birth) + 10|20)^2, observed through the class-o events of the shim),
+    it is attempted promptly once that time has come and a slot is free, earlier-due messages are
+    served first, the schedule survives TERM + restart, ALRM makes waiting messages due at once,
+    and past the queue lifetime a deferral becomes a failure."""
+    property_id = "C15"
+
+    def __init__(self, res, hist):
+        super().__init__(res, hist)
+        self.alrms = []              # seq of every ALRM
+        self.alrm_due = {}           # (msg key, chan) -> seq of the latest ALRM that found it waiting
+        self.crash_gen = set()
+        self.term_busy = {}          # generation -> set of channels that had deliveries outstanding when TERM arrived
+        self.last_po = {}            # id(rcpt) -> pass-open tuple of its latest attempt
+
+    def waiting(self, sim):
+        """(msg, chan) pairs that wait in the schedule: nothing of that message outstanding on the channel"""
+        out = []
+        for m in self.ledger.msgs.values():
+            if m.gone or m.records is None or m.birth is None or self.ledger.cur.get(m.num) != m.gen:
+                continue
+            for chan, recs in m.records.items():
+                if not [r for r in recs if not r.marked and not r.final()]:
+                    continue
+                if any(c.num == m.num and c.gen == m.gen and c.chan == chan for c in sim.outstanding.values()):
+                    continue
+                out.append((m, chan))
+        return out
+
+    def on_event(self, ev, sim):
+        k = ev["kind"]
+        if k == "signal" and ev["sig"] == "ALRM":
+            self.alrms.append(ev["seq"])
+            busy_ch = {c.chan for c in sim.outstanding.values()}
+            for m, chan in self.waiting(sim):
+                # a message whose pass may still be open (its channel has deliveries outstanding) is not in the schedule
+                if chan not in busy_ch:
+                    self.alrm_due[(m.key(), chan)] = ev["seq"]
+        elif k == "signal" and ev["sig"] == "TERM":
+            self.term_busy[self.ledger.generation] = {c.chan for c in sim.outstanding.values()}
+        elif k == "crash" and "send" in ev.get("who", []):
+            self.crash_gen.add(self.ledger.generation + 1)
+        elif k == "cmd":
+            m, r = ev.get("msg"), ev.get("rcpt")
+            if m is None or r is None or m.birth is None:
+                return
+            chan = r.chan
+            po = m.pass_open.get(chan, [])
+            if not po:
+                return
+            cur = po[-1]
+            prev = self.last_po.get(id(r))
+            self.last_po[id(r)] = cur
+            self.res.counters.inc("attempts_seen")
+            if prev is None:
+                return
+            t0_, g0, s0 = prev
+            t1, g1, s1 = cur
+            due = f_retry(m.birth, t0_, chan)
+            if due <= t0_:
+                self.violate("C15/retry-time-not-in-future", "computed retry %d <= pass time %d" % (due, t0_))
+            excused = any(a > s0 for a in self.alrms) or getattr(self.h, "faults_active", False)
+            if g1 != g0:
+                if any(g in self.crash_gen for g in range(g0 + 1, g1 + 1)):
+                    excused = True           # no pqfinish after a crash: the file's own mtime applies
+                elif any(chan in self.term_busy.get(g, {chan}) for g in range(g0, g1)):
+                    excused = True           # a pass that is still open at exit is not written back (observed behaviour)
+            if t1 < due and not excused:
+                self.violate("C15/retried-before-backoff/%s%s" % (CH[chan], "/across-restart" if g1 != g0 else ""),
+                             "recipient %r of message %d: attempt in the pass opened at age %d, next attempt in a pass opened at age %d, "
+                             "earliest allowed age %d = (isqrt(%d)+%d)^2" % (r.addr, m.num, t0_ - m.birth, t1 - m.birth, due - m.birth,
+                                                                            max(0, t0_ - m.birth), 10 if chan == "l" else 20))
+            elif not excused:
+                self.res.counters.inc("backoff_intervals_checked")
+                if g1 != g0:
+                    self.res.counters.inc("backoff_checked_across_restart")
+
+    def due_of(self, m, chan, now):
+        po = m.pass_open.get(chan, [])
+        if not po or po[-1][1] != self.ledger.generation:
+            return None
+        due = f_retry(m.birth, po[-1][0], chan)
+        if self.alrm_due.get((m.key(), chan), 0) > po[-1][2]:
+            due = min(due, now)
+        return due
+
+    def on_step(self, ev, sim):
+        # earliest-due first: a pass opens while nothing at all is outstanding on its channel (so every other
+        # message of the channel waits in the schedule): no waiting message may have an earlier due time
+        if ev.get("c") != "openr" or ev.get("prog") != "qmail-send" or ev.get("ret", -1) < 0:
+            return
+        d, num = qparts(ev)
+        if d not in ("local", "remote") or num is None:
+            return
+        m = self.ledger.msg(num)
+        if m is None or m.birth is None:
+            return
+        chan = "l" if d == "local" else "r"
+        self.res.counters.inc("pass_opens_seen")
+        po = m.pass_open.get(chan, [])
+        if len(po) < 2 or po[-2][1] != po[-1][1] or any(c.chan == chan for c in sim.outstanding.values()):
+            return
+        if any(a > po[-2][2] for a in self.alrms):
+            return
+        now = sim.vnow()
+        my_due = f_retry(m.birth, po[-2][0], chan)
+        for o, ochan in self.waiting(sim):
+            if o is m or ochan != chan:
+                continue
+            opo = o.pass_open.get(chan, [])
+            if not opo or opo[-1][1] != self.ledger.generation or any(a > opo[-1][2] for a in self.alrms):
+                continue
+            odue = f_retry(o.birth, opo[-1][0], chan)
+            self.res.counters.inc("ordering_pairs_checked")
+            if odue < my_due and odue <= now:
+                self.violate("C15/later-due-served-first", "message %d (due %d) got a pass at %d before message %d (due %d)" % (
+                    num, my_due - shim.T0, now - shim.T0, o.num, odue - shim.T0))
+
+    def on_quiesce(self, q, sim):
+        if self.ledger.term_sent:
+            return
+        T = q.get("T", 0)
+        now = sim.vnow()
+        busy_ch = {c.chan for c in sim.outstanding.values()}
+        for m, chan in self.waiting(sim):
+            if chan in busy_ch or self.h.limit(chan) == 0:
+                continue         # slots in use or a pass possibly open on this channel: the bound need not hold
+            due = self.due_of(m, chan, now)
+            if due is None:
+                continue
+            self.res.counters.inc("sleep_bounds_checked")
+            if now + T > due + 2:
+                key = "C15/not-retried-promptly" if due <= now else "C16/sleeps-past-due-retry"
+                self.violate(key + "/" + CH[chan], "message %d due at %d, now %d, daemon asks to sleep %d s with free slots" % (
+                    m.num, due - shim.T0, now - shim.T0, T))
+        # past the lifetime: a Z answered in a pass opened after expiry must have become a failure
+        for m in self.ledger.msgs.values():
+            if m.gone or m.records is None or m.birth is None or self.ledger.cur.get(m.num) != m.gen:
+                continue
+            for chan, recs in m.records.items():
+                po = m.pass_open.get(chan, [])
+                for r in recs:
+                    lp = self.last_po.get(id(r))
+                    if r.reports and r.reports[-1] == "Z" and not r.marked and lp and lp[1] == self.ledger.generation \
+                            and lp[0] > m.birth + self.h.lifetime and not any(sim.outstanding.get((c.chan, c.delnum)) is c for c in r.cmds):
+                        self.violate("C15/expired-message-deferred-again", "message %d: recipient %r answered Z in a pass opened %d s after birth "
+                                     "(lifetime %d) and is still pending" % (m.num, r.addr, lp[0] - m.birth, self.h.lifetime))
+
+
+class WakeupOracle(HOracle):
+    property_id = "C16"
+
+    def __init__(self, res, hist):
+        super().__init__(res, hist)
+        self.spin = 0
+        self.last_steps = 0
+
+    def on_event(self, ev, sim):
+        k = ev["kind"]
+        if k == "selret":
+            if ev.get("T") == 0 and ev.get("ret") == 0 and sim.steps == self.last_steps:
+                self.spin += 1
+                if self.spin == 200:
+                    self.violate("C16/busy-loop", "200 consecutive zero-timeout selects that found nothing, with no other call in between")
+            else:
+                self.spin = 0
+            self.last_steps = sim.steps
+            self.res.counters["max_idle_zero_timeout_selects"] = max(self.res.counters.get("max_idle_zero_timeout_selects", 0), self.spin)
+        elif k in ("cmd", "report", "inject", "clock", "signal", "start"):
+            self.spin = 0
+
+    def on_quiesce(self, q, sim):
+        self.res.counters.inc("quiescent_points_checked")
+        if self.ledger.term_sent:
+            return
+        if getattr(sim, "live_injectors", None) and sim.live_injectors():
+            return
+        todo = os.listdir(sim.qpath("todo"))
+        if todo:
+            self.violate("C16/lost-wakeup", "daemon asks to sleep %s s while %r (injection complete) is unprocessed" % (q.get("T"), todo[:3]))
+        T = q.get("T", 0)
+        if T > 1501 + 1:
+            self.violate("C16/sleeps-past-todo-rescan", "requested sleep %d s exceeds the 25-minute rescan interval" % T)
